@@ -430,7 +430,7 @@ def run(tier):
         seen_sh.add(key)
         # quick: each behaviour in one class (rotating); thorough: in every class
         for cname in (shclasses if thorough else [shclasses[n_sh % len(shclasses)]]):
-            sharelib.replay(j, PID, cname, h)
+            sharelib.replay(j, PID, cname, h, fresh=(n_sh % 23 == 0))
         n_sh += 1
     if n_sh < 20000:
         raise MachineryError("sharing export too small: %d" % n_sh)
